@@ -374,6 +374,10 @@ func (in *Interp) convert(v Value, from, to types.Type) Value {
 				}
 				return ts.ZExt(a, w)
 			case tb.Info()&types.IsFloat != 0:
+				if !a.IsConst() && a.W > 0 {
+					// floats are concrete: case-split the integer (bounded by the obligation's split=N)
+					a = ts.ConstI(a.W, in.concretize(a, in.ob.MaxSplit, "int to float conversion"))
+				}
 				if a.IsConst() {
 					var f float64
 					if isSigned(from) {
